@@ -184,7 +184,7 @@ def generate(rng: random.Random, tier: str) -> dict:
         elif r < (0.55 if style != "composite-heavy" else 0.75):
             kind = rng.choice(COMP_KINDS)
             ref = rng.choice(crs_slots) if (crs_slots and kind in NEEDS_CRS and rng.random() < 0.9) else None
-            steps.append(["comp", kind, rng.randrange(8), ref])
+            steps.append(["comp", kind, rng.randrange(12), ref])
             val_slots.append(n_pool)
             n_pool += 1
         elif r < 0.63 and (crs_slots or val_slots):
@@ -265,11 +265,13 @@ def build_comp(kind: str, v: int, crs: Any) -> Any:
     from odc.geo.types import ixy_, resyx_, shape_, xy_
 
     if kind == "bbox":
+        v = v % 6
         box = [0.0, 0.0, 10.0, 20.0]
         if v in (1, 2, 3, 4):
             box[v - 1] += 0.5
         return geom.BoundingBox(*box, crs=crs)
     if kind == "geom":
+        v = v % 8
         if v == 0:
             return geom.point(1.0, 2.0, crs)
         if v == 1:
@@ -286,18 +288,14 @@ def build_comp(kind: str, v: int, crs: Any) -> Any:
             return geom.multipoint([(0, 0), (1, 1)], crs)
         return geom.multipoint([(0, 0), (1, 1.5)], crs)
     if kind == "geobox":
-        shp = [(10, 12), (10, 12), (12, 10), (8, 15), (10, 12), (10, 12), (10, 12), (10, 12)][v]
+        # 0 base | 1 same as base | 2 transposed | 3 same pixel count | 4..9 one affine coefficient changed (a,b,c,d,e,f) | 10 ny+1 | 11 nx+1
+        shp = {2: (12, 10), 3: (8, 15), 10: (11, 12), 11: (10, 13)}.get(v, (10, 12))
         a = [10.0, 0.0, 100.0, 0.0, -10.0, 500.0]
-        if v == 4:
-            a[2] += 1.0
-        elif v == 5:
-            a[0] = 10.5
-        elif v == 6:
-            a[1] = 0.25
-        elif v == 7:
-            a[4] = 10.0
+        if 4 <= v <= 9:
+            a[v - 4] += [0.5, 0.25, 1.0, 0.25, 0.5, 1.0][v - 4]
         return GeoBox(shp, Affine(*a), crs)
     if kind == "gcp":
+        v = v % 8
         pix = [(0, 0), (10, 0), (10, 12), (0, 12), (5, 6)]
         wld = [(100.0, 500.0), (200.0, 501.0), (202.0, 380.0), (99.0, 379.0), (150.0, 440.0)]
         if v in (1, 5):
@@ -309,33 +307,38 @@ def build_comp(kind: str, v: int, crs: Any) -> Any:
 
         return GCPGeoBox(shp, GCPMapping(np.asarray(pix, dtype="float64"), np.asarray(wld, dtype="float64"), crs), Affine.translation(1, 0) if v == 4 else None)
     if kind == "gbtiles":
-        gb = GeoBox((20, 30) if v != 3 else (21, 30), Affine(10.0, 0.0, 100.0, 0.0, -10.0, 500.0 + (1.0 if v == 4 else 0.0)), crs)
-        if v == 5:
-            return GeoboxTiles(gb, ((10, 10), (10, 20)))
-        if v == 6:
-            return GeoboxTiles(gb, ((10, 10), (20, 10)))
-        return GeoboxTiles(gb, [(10, 10), (10, 15), (5, 10), (10, 10), (10, 10), None, None, (7, 10)][v])
+        # 0 base | 1 tile nx | 2 tile ny | 3 base shape | 4 base affine f | 5,6 variable chunks differing in columns | 7 tile ny
+        # 8,9 variable chunks differing in rows only | 10 base affine c | 11 same as base
+        gb = GeoBox((20, 30) if v != 3 else (21, 30), Affine(10.0, 0.0, 100.0 + (1.0 if v == 10 else 0.0), 0.0, -10.0, 500.0 + (1.0 if v == 4 else 0.0)), crs)
+        var = {5: ((10, 10), (10, 20)), 6: ((10, 10), (20, 10)), 8: ((5, 15), (10, 20)), 9: ((15, 5), (10, 20))}
+        if v in var:
+            return GeoboxTiles(gb, var[v])
+        return GeoboxTiles(gb, {1: (10, 15), 2: (5, 10), 7: (7, 10)}.get(v, (10, 10)))
     if kind == "gridspec":
         if crs is None:
             raise _Skip()
-        ts = (100, 100) if v != 1 else (100, 120)
-        res = 10.0 if v != 2 else 20.0
-        org = xy_(0.0, 0.0) if v != 3 else xy_(5.0, 0.0)
+        # 0 base | 1 tile nx | 2 resolution | 3 origin x | 4 flipx | 5 flipy | 6 tile ny | 7 origin y | 8 non-square resolution | 9.. base
+        ts = {1: (100, 120), 6: (120, 100)}.get(v, (100, 100))
+        res: Any = 20.0 if v == 2 else (resyx_(-10.0, 20.0) if v == 8 else 10.0)
+        org = {3: xy_(5.0, 0.0), 7: xy_(0.0, 5.0)}.get(v, xy_(0.0, 0.0))
         return GridSpec(crs, ts, res, org, flipx=(v == 4), flipy=(v == 5))
     if kind == "tiles":
-        base, tile = [((10, 10), (5, 5)), ((9, 9), (5, 5)), ((10, 10), (5, 4)), ((10, 12), (5, 6)), ((10, 9), (5, 5)), ((20, 10), (10, 5)), ((10, 10), (10, 10)), ((7, 7), (10, 10))][v]
+        fam = [((10, 10), (5, 5)), ((9, 9), (5, 5)), ((10, 10), (5, 4)), ((10, 12), (5, 6)), ((10, 9), (5, 5)), ((20, 10), (10, 5)), ((10, 10), (10, 10)), ((7, 7), (10, 10)),
+               ((9, 10), (5, 5)), ((10, 10), (4, 5)), ((10, 10), (5, 5)), ((11, 10), (5, 5))]
+        base, tile = fam[v % len(fam)]
         return Tiles(base, tile)
     if kind == "vtiles":
-        ch = [((5, 5), (3, 7)), ((5, 5), (7, 3)), ((5, 5), (3, 7)), ((4, 6), (3, 7)), ((10,), (10,)), ((5, 5), (10,)), ((5, 5, 0), (3, 7)), ((5, 5), (3, 6))][v]
-        return VariableSizedTiles(ch)
+        fam = [((5, 5), (3, 7)), ((5, 5), (7, 3)), ((5, 5), (3, 7)), ((4, 6), (3, 7)), ((10,), (10,)), ((5, 5), (10,)), ((5, 5, 0), (3, 7)), ((5, 5), (3, 6)),
+               ((6, 4), (3, 7)), ((3, 7), (5, 5)), ((5, 5), (3, 3, 4)), ((5, 6), (3, 7))]
+        return VariableSizedTiles(fam[v % len(fam)])
     if kind == "xy":
-        return [xy_(1, 2), xy_(2, 1), xy_(1.0, 2.0), xy_(1, 3), xy_(1.5, 2), xy_(-1, 2), xy_(0, 0), xy_(1, 2)][v]
+        return [xy_(1, 2), xy_(2, 1), xy_(1.0, 2.0), xy_(1, 3), xy_(1.5, 2), xy_(-1, 2), xy_(0, 0), xy_(1, 2)][v % 8]
     if kind == "res":
-        return [resyx_(-10, 10), resyx_(10, 10), resyx_(-10.0, 10.0), resyx_(-10, 10.5), resyx_(-1, 1), resyx_(-10, 10), resyx_(-20, 10), resyx_(-10, 20)][v]
+        return [resyx_(-10, 10), resyx_(10, 10), resyx_(-10.0, 10.0), resyx_(-10, 10.5), resyx_(-1, 1), resyx_(-10, 10), resyx_(-20, 10), resyx_(-10, 20)][v % 8]
     if kind == "shape":
-        return [shape_((10, 12)), shape_((12, 10)), shape_((10, 12)), shape_((10, 13)), shape_((1, 1)), shape_((0, 0)), shape_((120, 1)), shape_((10, 12))][v]
+        return [shape_((10, 12)), shape_((12, 10)), shape_((10, 12)), shape_((10, 13)), shape_((1, 1)), shape_((0, 0)), shape_((120, 1)), shape_((10, 12))][v % 8]
     if kind == "index":
-        return [ixy_(1, 2), ixy_(2, 1), ixy_(1, 2), ixy_(0, 0), ixy_(-1, 2), ixy_(1, -2), ixy_(100, 2), ixy_(1, 3)][v]
+        return [ixy_(1, 2), ixy_(2, 1), ixy_(1, 2), ixy_(0, 0), ixy_(-1, 2), ixy_(1, -2), ixy_(100, 2), ixy_(1, 3)][v % 8]
     raise HarnessError(f"unknown kind {kind}")
 
 
@@ -759,6 +762,42 @@ def ensure_baselines(record: dict) -> None:
                 BASELINE[sp] = _in_fork(_baseline_child, sp)
 
 
+def ensure_refs(record: dict) -> None:
+    """Build the pyproj reference transformers a history will need in the worker (before the
+    fork), so that children inherit them instead of paying PROJ's operation search each time."""
+    code_of: Dict[int, Any] = {}
+    n = 0
+    need = set()
+    for st in record["workload"]["steps"]:
+        op = st[0]
+        if op == "crs":
+            code_of[n] = st[1]
+            n += 1
+        elif op == "comp":
+            n += 1
+        elif op in ("copy", "pickle"):
+            code_of[n] = code_of.get(st[1])
+            n += 1
+        elif op == "race":
+            for sp in st[1]:
+                code_of[n] = sp[0]
+                n += 1
+        elif op == "transform":
+            a, b = code_of.get(st[1]), code_of.get(st[2])
+            if a is not None and b is not None:
+                need.add((a, b, bool(st[3])))
+        elif op == "churn":
+            b = code_of.get(st[2])
+            if b is not None:
+                for c in st[1]:
+                    need.add((c, b, bool(st[3])))
+    import pyproj
+
+    for k in need:
+        if k not in REF["tr"] and k[0] in REF["probe_xy"] and k[1] in REF["probe_xy"]:
+            REF["tr"][k] = pyproj.Transformer.from_crs(REF["specs"][k[0]]["pp"], REF["specs"][k[1]]["pp"], always_xy=k[2])
+
+
 def _history_child(record: dict, rng_state: Any):
     rng = None
     if rng_state is not None:
@@ -812,6 +851,8 @@ def execute(record: dict, rng: Optional[random.Random]) -> Outcome:
     if len(C._crs_cache) != 0:
         raise HarnessError("C19 worker is not pristine: the CRS cache is not empty")
     ensure_baselines(record)
+    ensure_refs(record)
+    gc.freeze()  # children collect only what they allocate themselves (the inherited heap is large)
     res = _in_fork(_history_child, record, None if rng is None else rng.getstate())
     ch = Chooser(None, [], [], None)
     ch.schedule_out = [tuple(e) for e in res["schedule"]]
